@@ -1,6 +1,7 @@
 import AlgoVerif.Proofs.C06BinarySim
 import AlgoVerif.Proofs.C06Patricia
 import AlgoVerif.Proofs.C06PDel3
+import AlgoVerif.Proofs.C06XP
 /-!
 # C06 — tries are ordered string maps with prefix and pattern queries
 
@@ -137,4 +138,102 @@ example : Patricia.run (Patricia.new : Patricia Int)
       .withPrefix [97], .withPrefix [98], .withPrefix [99], .longestPrefixOf [97, 0, 0, 7], .match [97, 42],
       .match [42, 42, 42], .delete [97, 98], .all, .delete [97, 0], .withPrefix [97], .delete [100], .deleteMin, .all,
       .deleteMax, .all, .delete [97, 0, 0], .delete [98, 120], .size, .all]).map Outcome.ok := by
+  decide
+
+/-! ## the rest of `trie.Trie` (not named by the property; `Model/C06X.lean`)
+
+`Traverse`, `AnyMatch`, `AllMatch`, `FirstMatch`, `SelectMatch`, `PartitionMatch`, `Equal`, `Height`, `IsEmpty` are
+transcribed so that the correspondence run executes every branch of the `_traverse` functions the property's queries
+share.  The theorems below say what these operations mean on the sorted map, for histories over two registers
+(`a`: the trie all operations apply to; `b`: the result of the last `SelectMatch` / `PartitionMatch`; `swap`). -/
+
+/-- The general `_traverse` of the binary trie (`Model/C06X.lean`) is, in the orders `Ascending` / `VLR` and
+`Descending` / `RLV`, the very traversal the property's ordered queries are stated with (`Model/C06.lean`); an order
+that is none of the eight constants visits nothing and reports "stopped" on a non-nil node. -/
+theorem C06_binary_traverse_orders {V σ : Type} (visit : σ → Key → V → Bool → σ × Bool) (n : BNode V) (pre : Key) (s : σ) :
+    BNode.trav .asc visit n pre s = BNode.travAsc visit n pre s ∧
+    BNode.trav .vlr visit n pre s = BNode.travAsc visit n pre s ∧
+    BNode.trav .desc visit n pre s = BNode.travDesc visit n pre s ∧
+    BNode.trav .rlv visit n pre s = BNode.travDesc visit n pre s ∧
+    BNode.trav .bad visit n pre s = (s, n.isNil) :=
+  ⟨BNode.trav_asc .., BNode.trav_vlr .., BNode.trav_desc .., BNode.trav_rlv .., BNode.trav_bad ..⟩
+
+/-- `Equal` as the Spec reads it (every pair of either map has a partner with the same key and an `eqVal`-related value
+in the other) is equality of the sorted maps whenever `eqVal` decides equality of values. -/
+theorem C06_spec_equal_is_equality {V : Type} (eqv : V → V → Bool) (heq : ∀ a b, eqv a b = true ↔ a = b)
+    {m m2 : Spec.Map V} (hs : Sorted m) (hs2 : Sorted m2) : Spec.Map.equal eqv m m2 = true ↔ m = m2 :=
+  Spec.Map.equal_iff eqv heq hs hs2
+
+/-- **Binary trie, all of `trie.Trie`.**  For every history over the two registers — the 19 operations of the property
+and IsEmpty, Height, Traverse (any order, any stopping visitor), AnyMatch, AllMatch, FirstMatch, SelectMatch,
+PartitionMatch (any predicate), Equal (any `eqVal`), Equal against a trie of the other kind, swap — with non-empty
+stored / looked-up / deleted keys, nothing panics and every result is admitted by the pair of sorted maps
+(`Spec.admits`): IsEmpty / AnyMatch / AllMatch / Equal exactly; FirstMatch a held pair satisfying the predicate (none iff
+there is none); SelectMatch / PartitionMatch tries whose `All()` and `Size()` are exactly the selected / rejected
+sub-maps — and they are again tries of which all this holds; Traverse with an unknown order shows nothing.  (Height and
+what the binary trie's Traverse shows — nodes, not keys — are not functions of the map: only "returns" is stated.) -/
+theorem C06_binary_collection {V : Type} [Inhabited V] (eqv : V → V → Bool) (ops : List (XOp V))
+    (hk : ∀ op ∈ ops, op.keysNonempty = true) :
+    Spec.Admitted false eqv Binary.Holds (([], []) : Spec.Map V × Spec.Map V) ops
+      (Binary.xrun eqv (Binary.new, Binary.new) ops) :=
+  Binary.xrun_sim eqv BInv.new BInv.new ops hk
+
+/-- the binary trie's FirstMatch is moreover exact: in every state that represents the sorted map `m` (`BInv`: right
+links increasing, entries = `m`, size = length — the invariant every history of `C06_binary` / `C06_binary_collection`
+maintains) it returns the first match in ascending key order -/
+theorem C06_binary_firstMatch_exact {V : Type} (t : Binary V) (m : Spec.Map V) (h : BInv t m) (p : Key → V → Bool) :
+    t.firstMatch p = m.find? fun e => p e.1 e.2 :=
+  Binary.firstMatch_eq h p
+
+example : BInv (Binary.new : Binary Int) [] := BInv.new
+
+/-- Why the visitor of the binary trie's `Max` is never shown a node that does not end a key (`return true` in
+`binary.go:271` is dead code; recorded in `meta/C06.json`, `unreachable_branches`): "a node without a left child ends a
+key" (`BNode.Tight`) holds of the empty trie, is kept by every operation, and on a non-empty trie with this property
+a descending (`RLV`) traversal whose visitor stops at the first `term` node stops at its very first call — two such
+visitors that differ only on non-`term` nodes give the same result. -/
+theorem C06_binary_max_sees_term_node_first {V σ : Type} [Inhabited V] :
+    (Binary.new : Binary V).root.Tight ∧
+    (∀ (t t' : Binary V) (op : Op V) (o : Out V), t.root.Tight → t.step op = .ok (t', o) → t'.root.Tight) ∧
+    (∀ (t : Binary V) (v1 v2 : σ → Key → V → Bool → σ × Bool), t.root.Tight → t.root.isNil = false →
+      (∀ s k v, v1 s k v true = v2 s k v true) → (∀ s k v, (v1 s k v true).2 = false) →
+      ∀ s, t.root.travDesc v1 [] s = t.root.travDesc v2 [] s ∧ (t.root.travDesc v1 [] s).2 = false) :=
+  ⟨trivial, fun _ _ op _ h hs => Binary.step_tight op h hs,
+   fun t v1 v2 ht hn ha hs s => BNode.travDesc_first_term v1 v2 ha hs t.root hn ht [] s⟩
+
+/-- non-vacuity: the trie holding `a`, `ab`, `b` is tight and non-empty -/
+example : ((BNode.nil : BNode Int).put 97 [] 1 0).1.put 97 [98] 2 1 |>.1.put 98 [] 3 2 |>.1.Tight ∧
+    (((BNode.nil : BNode Int).put 97 [] 1 0).1.put 97 [98] 2 1 |>.1.put 98 [] 3 2 |>.1.isNil) = false := by
+  refine ⟨?_, rfl⟩
+  simp [BNode.put, BNode.chain, BNode.Tight, BNode.isNil]
+
+/-- **Patricia trie, all of `trie.Trie`.**  The same for the Patricia trie, for histories whose stored keys are non-empty
+and shorter than `lenPos` bits (`XPatriciaHistory`); in addition Traverse shows keys: the ascending list cut where the
+visitor stops for `Ascending`, the descending one for `Descending`, some arrangement of the held pairs cut there for the
+six structural orders (they walk the nodes; every node is the target of exactly one thread), and Height, all traversals
+and the `Put`s inside SelectMatch / PartitionMatch stay within the Model's fuel. -/
+theorem C06_patricia_collection {V : Type} (eqv : V → V → Bool) (ops : List (XOp V)) (hk : XPatriciaHistory ops = true) :
+    Spec.Admitted true eqv Patricia.Holds (([], []) : Spec.Map V × Spec.Map V) ops
+      (Patricia.xrun eqv (Patricia.new, Patricia.new) ops) :=
+  Patricia.xrun_sim eqv Patricia.XInv.new ops hk
+
+/-- non-vacuity: a history using every extended operation satisfies both hypotheses, and runs to these booleans -/
+example : (∀ op ∈ ([.base (.put [97] 1), .base (.put [97, 98] 2), .base (.put [98] 3), .isEmpty, .height,
+      .traverse .lvr 2, .traverse .bad (-1), .anyMatch (fun _ v => v == 2), .allMatch (fun k _ => k.length == 1),
+      .firstMatch (fun _ v => v > 1), .selectMatch (fun k _ => klt k [98]), .equal, .swap, .base .all,
+      .partitionMatch (fun _ v => v == 1), .equal, .equalOther] : List (XOp Int)), op.keysNonempty = true) ∧
+    XPatriciaHistory ([.base (.put [97] 1), .base (.put [97, 98] 2), .base (.put [98] 3), .isEmpty, .height,
+      .traverse .lvr 2, .traverse .bad (-1), .anyMatch (fun _ v => v == 2), .allMatch (fun k _ => k.length == 1),
+      .firstMatch (fun _ v => v > 1), .selectMatch (fun k _ => klt k [98]), .equal, .swap, .base .all,
+      .partitionMatch (fun _ v => v == 1), .equal, .equalOther] : List (XOp Int)) = true := by
+  decide
+
+example : ((Patricia.xrun (fun a b : Int => a == b) (Patricia.new, Patricia.new)
+      [.base (.put [97] 1), .base (.put [97, 98] 2), .base (.put [98] 3), .isEmpty,
+       .anyMatch (fun _ v => v == 2), .allMatch (fun k _ => k.length == 1),
+       .selectMatch (fun k _ => klt k [98]), .equal, .swap, .partitionMatch (fun _ v => v == 1), .equal]).map
+      fun o => match o with
+        | .ok (.bool b) => some b
+        | _ => none)
+    = [none, none, none, some false, some true, some false, none, some false, none, none, some false] := by
   decide
